@@ -72,8 +72,11 @@ FilterEmpty(flt, R, rw, cols, F) == \A r \in 1..R : FilterUnits(flt, R, rw, cols
 \* Scenario record s: [R, rw, ow, est (3 functions: objective 0, objective 1, constraint 0),
 \* flt (filter index per function), cols (value column per function), F, minsucc].
 \* Standard filter pair used by the bounded instances and the drivers:
+\* (filters 2 and 3 are the constraint flavours, keyed on the constraint column, which is upper-bounded: larger = worse)
 StdFilters(R) == << [kind |-> "sort", col |-> 1, first |-> 0, last |-> IF R = 1 THEN 0 ELSE R - 2, k |-> 0, D |-> 1],
-                 [kind |-> "cvar", col |-> 2, first |-> 0, last |-> 0, k |-> 1, D |-> 2] >>
+                 [kind |-> "cvar", col |-> 2, first |-> 0, last |-> 0, k |-> 1, D |-> 2],
+                 [kind |-> "cvar", col |-> 3, first |-> 0, last |-> 0, k |-> 1, D |-> 2],
+                 [kind |-> "sort", col |-> 3, first |-> 0, last |-> IF R = 1 THEN 0 ELSE R - 2, k |-> 0, D |-> 1] >>
 
 \* objective filters rank the objective-weighted value of their key objective (columns 1, 2)
 KeyCols(s) == [c \in 1..3 |-> IF c <= 2 THEN [r \in 1..s.R |-> s.ow[c] * s.cols[c][r]] ELSE s.cols[c]]
